@@ -146,8 +146,9 @@ fn validate_const_enum_data(
     let selector: usize =
         selector.try_into().map_err(|_| SpecializationError::UnsupportedGenericArg)?;
     // Extract the variant data type according to the selector.
-    let Some(GenericArg::Type(variant_data_ty)) =
-        inner_type_info.long_id.generic_args.get(1 + selector)
+    let Some(GenericArg::Type(variant_data_ty)) = selector
+        .checked_add(1)
+        .and_then(|variant_arg_idx| inner_type_info.long_id.generic_args.get(variant_arg_idx))
     else {
         return Err(SpecializationError::UnsupportedGenericArg);
     };
